@@ -495,7 +495,6 @@ func c18DeleteAfterIngest(c *Ctx) {
 	c.check(okAfter, "delete-after-ingest", "ingestBlockRange: deleteOldBlockRangeData", p.Pos(del.Pos()), "queued after the per-block loop completed", "the old-layout range deletion is queued before the blocks of the range are ingested: when a block fails mid-range the flushed partial batch deletes old entries of blocks that were never converted, and they end up in neither layout")
 }
 
-
 // c18CommitEveryBatch: a batch handed to the block-transactions committer is written on every path that reports success.
 // Its content is not only transactions: ranges of empty blocks put empty BlockTransactions entries (and old-layout range
 // deletes) into it, so "no transactions" does not mean "nothing to persist" (seeded change C18-H). The only accepted reason
